@@ -85,6 +85,23 @@ def judge(case, reports, add, stats):
                 f"step {i}: the previous process was killed; "
                 f"resuming raised {r.get('exc_type')}: {r.get('exc_msg')}",
                 {"step": i})
+    # a process that follows a kill raised while sampling: decided in run()
+    # by executing the same configuration without the kills
+    for i, r in enumerate(reports):
+        if i > 0 and r.get("status") == "exception" and \
+                r.get("phase") != "construct" and \
+                not r.get("exc_in_harness") and \
+                any(q.get("status") == "killed" for q in reports[:i]):
+            mid = any("resumed-from-mid-iteration-checkpoint" in
+                      (q.get("classes") or []) for q in reports)
+            FAILED_AFTER_RESUME.append({
+                "case": case, "step": i,
+                "key": "resumed-run-failed:%s@%s%s" % (
+                    r.get("exc_type"), r.get("exc_where"),
+                    "@consume_sample" if mid else ""),
+                "msg": f"step {i}: {r.get('exc_type')}: {r.get('exc_msg')}"})
+            classes.append("failed-after-resume")
+            break
     last = reports[-1]
     completed = last.get("status") == "completed" and not last.get("probe")
     if completed:
@@ -112,11 +129,47 @@ def strategy(ctx):
     )
 
 
+FAILED_AFTER_RESUME = []
+
+
+def decide_failed_after_resume(ctx, out):
+    """A run that is killed and resumed must complete like the uninterrupted
+    run: for every history whose resumed process raised, the same (seeded,
+    deterministic) configuration is executed without kills; if that run
+    completes, the failure belongs to the kill/resume history."""
+    from .. import runs
+    from ..core import Violation
+
+    todo, FAILED_AFTER_RESUME[:] = list(FAILED_AFTER_RESUME), []
+    if not todo:
+        return
+    hist = []
+    for t in todo:
+        c = dict(t["case"], kills=[])
+        c.pop("mid_ckpt_kill", None)
+        hist.append(configs.history_from(c, []))
+    res = runs.run_histories("c12u", hist)
+    for t, reps in zip(todo, res):
+        r = reps[-1]
+        if r.get("status") == "completed":
+            v = Violation(
+                t["key"], t["msg"] + " - the same configuration run without "
+                "interruption completes", dict(t["case"]))
+            if ctx.known(v.key):
+                out.stats.excluded_known[v.key] += 1
+            out.add(v)
+        else:
+            out.stats.classes["failed-after-resume:also-uninterrupted"] += 1
+
+
 def run(ctx):
     n = 14 if ctx.quick else 300
     cases = configs.collect(strategy(ctx), ctx.seed, n)
     cases += runcheck.known_cases("C12")
-    return runcheck.execute_cases(ctx, "c12", cases, make_history, judge)
+    FAILED_AFTER_RESUME[:] = []
+    out = runcheck.execute_cases(ctx, "c12", cases, make_history, judge)
+    decide_failed_after_resume(ctx, out)
+    return out
 
 
 def health(ctx, stats):
@@ -130,4 +183,7 @@ def health(ctx, stats):
 
 def replay(ctx, case):
     case = {k: v for k, v in case.items() if k != "extra"}
-    return runcheck.replay_case(ctx, "c12r", case, make_history, judge)
+    FAILED_AFTER_RESUME[:] = []
+    out = runcheck.replay_case(ctx, "c12r", case, make_history, judge)
+    decide_failed_after_resume(ctx, out)
+    return out
